@@ -507,8 +507,9 @@ structure Obj where
   carriedOps : Bool       -- `bool(patch.as_json_patch(body))`: the carried functions yield at least one
                           -- JSON-patch operation on the body of THIS event (else they are fulfilled already)
   lingering : Bool        -- in-memory residue of an earlier cycle: a daemon/timer of this object that is not
-                          -- matched any more (or whose object is being deleted) is still exiting, so
-                          -- `match_daemons` / `stop_daemons` return a delay (daemon life cycles: C09)
+                          -- matched any more (or whose object is being deleted, or that matches AGAIN while its
+                          -- stopped instance is escorted out: /repo ef26531) is still exiting, so `match_daemons` /
+                          -- `stop_daemons` / `spawn_daemons` return a delay (daemon life cycles: C09)
   handlerDelays : Bool    -- `process_changing_cause` (if it runs) returns delays: a handler asked to be retried
   resumed : List String   -- `memory.resumed_handlers` (/repo 6c4463d): resuming handlers already finished here
   records : List (String × List String)
